@@ -95,6 +95,28 @@ example : intervals (1/1000) [⟨1800, 3600, 0, []⟩, ⟨5400, 3600, 0, []⟩] 
     intervals (1/1000) [⟨1800, 3600, 0, []⟩, ⟨9000, 3600, 0, []⟩] = [(0, 3600), (7200, 10800)] := by
   decide +kernel
 
+/-- **the validity intervals are exactly the spans merged where they touch or overlap** (1 ms =
+`tol`): every returned interval runs from the start of a span to the end of a span, contains only
+points of spans and of gaps of at most `tol` between them, and distinct intervals are separated by
+more than `tol`; together with `C08_intervals_cover` (every span lies inside one of them) this
+characterises the result. -/
+theorem C08_intervals_exact (tol : Rat) (htol : 0 ≤ tol) (es : List Entry) (hspan : ∀ e ∈ es, 0 ≤ e.span) :
+    (∀ iv ∈ intervals tol es,
+      (∃ e ∈ es, iv.1 = e.tmid - e.span / 2) ∧ (∃ e ∈ es, iv.2 = e.tmid + e.span / 2) ∧
+      ∀ t, iv.1 ≤ t → t ≤ iv.2 → ∃ e ∈ es, e.tmid - e.span / 2 - tol ≤ t ∧ t ≤ e.tmid + e.span / 2) ∧
+    (intervals tol es).Pairwise (fun a b => a.2 + tol < b.1) := by
+  obtain ⟨h1, h2⟩ := intervals_tight tol htol es hspan
+  refine ⟨?_, h2⟩
+  intro iv hiv
+  obtain ⟨⟨x, hx, hx1⟩, ⟨y, hy, hy2⟩, hp⟩ := h1 iv hiv
+  obtain ⟨ex, hex, rfl⟩ := List.mem_map.mp hx
+  obtain ⟨ey, hey, rfl⟩ := List.mem_map.mp hy
+  refine ⟨⟨ex, hex, hx1⟩, ⟨ey, hey, hy2⟩, ?_⟩
+  intro t ht1 ht2
+  obtain ⟨z, hz, hz1, hz2⟩ := hp t ht1 ht2
+  obtain ⟨ez, hez, rfl⟩ := List.mem_map.mp hz
+  exact ⟨ez, hez, hz1, hz2⟩
+
 /-- **translator tie**: the literals of `predictor.py` (regenerated from the source on every run) are
 the constants the model uses — polynomial domain `[-60, 60]` minutes (so `convert()` substitutes
 `x / 60`), `F0 · 60`, three coefficients per line, 1 ms merge tolerance, `deriv(n + 1)` in both
